@@ -30,7 +30,7 @@ def make(kind, sig, conds, extra):
     from inference.preocf import PreOCF, RandomMinCRepPreOCF
 
     if kind == "custom":
-        return mk_custom(sig, extra)
+        return mk_sparse(sig, extra)
     if kind == "sysz":
         return build_sysz(sig, conds, extra[0], extra[1])
     if kind == "crep":
@@ -38,6 +38,14 @@ def make(kind, sig, conds, extra):
     if kind == "crep-list":
         return RandomMinCRepPreOCF.init_with_impacts_list(drive.mkbb(sig, conds), list(extra))
     raise ValueError(kind)
+
+
+def mk_sparse(sig, table):
+    """Custom object; None entries of the table are worlds the object does not know at all."""
+    from inference.preocf import PreOCF
+
+    ranks = {forms.world_str(sig, w): r for w, r in enumerate(table) if r is not None}
+    return PreOCF.init_custom(ranks, signature=list(sig))
 
 
 def snapshot(obj, queries):
@@ -137,6 +145,9 @@ class C20(Check):
         for tb in ((0, 1, 2, 0), (3, 3, 0, 1), (0, 0, 0, 0)):
             out.append(("custom", scopes.SIG2, tb))
         out.append(("custom", scopes.SIG3, (0, 2, 1, 1, 0, 3, 2, 0)))
+        # custom objects whose table covers only some worlds (e.g. the result of a conditionalisation)
+        out.append(("custom", scopes.SIG3, (0, 2, None, 1, None, None, 2, 0)))
+        out.append(("custom", scopes.SIG2, (1, None, 0, None)))
         out.append(("metadata",))
         for conds, cls in [r for r in reps2 if r[1] == "strong"][:3]:
             out.append(("crash", scopes.SIG2, conds))
@@ -260,6 +271,8 @@ class C20(Check):
                 res.violation(self.id, "load-raises", c2, "object", r["error"])
                 continue
             got = {"signature": r["signature"], "ranks": r["ranks_completed"], "impacts": r["impacts"], "acceptance": r["acceptance"]}
+            if "worlds" in want:
+                got["worlds"] = r["worlds"]
             probs = []
             if r["ranks_as_loaded"] != before:
                 probs.append("ranks as loaded differ from the saved state")
@@ -277,20 +290,26 @@ class C20(Check):
 
     def roundtrip_custom(self, res, tmp, sig, table):
         queries = QUERIES2 if len(sig) == 2 else QUERIES3
-        want = snapshot(mk_custom(sig, table), queries)
+        want = snapshot(mk_sparse(sig, table), queries)
+        want["worlds"] = sorted(mk_sparse(sig, table).ranks)
         items, expect = [], {}
         case = {"sig": sig, "prior": list(table), "kind": "custom", "config": "custom", "conds_f": []}
         from inference.preocf import PreOCF
 
         for i, meta in enumerate(META_MENU):
-            obj = mk_custom(sig, table)
+            obj = mk_sparse(sig, table)
             for k, v in meta.items():
                 obj.save_meta(k, v)
             path = os.path.join(tmp, "c%d.pkl" % i)
             res.evals += 1
             obj.save_ocf(path)
             o2 = PreOCF.load_ocf(path, trusted=True)
-            if snapshot(o2, queries) != want or o2.metadata != meta:
+            try:
+                got2 = snapshot(o2, queries)
+                got2["worlds"] = sorted(o2.ranks)
+            except Exception as e:  # noqa: BLE001
+                got2 = drive.exc_obs(e)
+            if got2 != want or o2.metadata != meta:
                 res.violation(self.id, "reload-differs", dict(case, channel="same-process", metadata=meta), want, {"ranks": dict(o2.ranks), "metadata": o2.metadata})
             else:
                 res.nontrivial.add(hash((tuple(table), i, "custom")))
